@@ -231,6 +231,9 @@ package stack
 //@   modifies ghost:fetched at in; ghost:dataReads at in; ghost:wlen, ghost:wdata, ghost:werrs at prefix
 //@   gvar rdErr error = zero
 //@   update after-call readLine#1: rdErr := ret1
+//@   assert after-call nameArguments#1: [namingOnlyWhenAsked C15] opts.NameArguments
+//@   assert after-call guessPaths#1: [pathGuessingOnlyWhenAsked C18] opts.GuessPaths
+//@   assert after-call augment#1: [augmentOnlyWhenAsked C19] opts.AnalyzeSources
 //@   requires in != nil && prefix != nil
 //@   requires 0 <= fetched(in) && fetched(in) <= N(in) && 0 <= wlen(prefix)
 //@   ensures [forwardedIsStreamPrefix C02 C09] wlen(prefix) >= old(wlen(prefix)) && (forall k :: 0 <= k && k < old(wlen(prefix)) ==> wdata(prefix)[k] == old(wdata(prefix))[k]) && (forall j :: old(wlen(prefix)) <= j && j < wlen(prefix) ==> wdata(prefix)[j] == S(in, old(fetched(in)) + (j - old(wlen(prefix)))))
@@ -876,9 +879,13 @@ package stack
 //@   ensures [swapExchanges C06 C15] a[i] == old(a[j]) && a[j] == old(a[i]) && forall k :: 0 <= k && k < len(a) && k != i && k != j ==> a[k] == old(a[k])
 
 //@ func nameArguments$1
-//@   option assumed
 //@   requires arg != nil && objects != nil
 //@   modifies mapof(objects)
+//@   ensures [visitSkipsNonPointers C15] !arg.IsPtr ==> (forall v uint64 :: dom(objects, v) == old(dom(objects, v)) && objects[v].inPrimary == old(objects[v].inPrimary) && sameslice(objects[v].args, old(objects[v].args)))
+//@   ensures [visitRecordsPointer C15] arg.IsPtr ==> dom(objects, arg.Value) && len(objects[arg.Value].args) == old(dom(objects, arg.Value) ? len(objects[arg.Value].args) : 0) + 1 && objects[arg.Value].args[len(objects[arg.Value].args) - 1] == arg
+//@   ensures [visitKeepsEarlierOccurrences C15] arg.IsPtr && old(dom(objects, arg.Value)) ==> forall i :: 0 <= i && i < old(len(objects[arg.Value].args)) ==> objects[arg.Value].args[i] == old(objects[arg.Value].args[i])
+//@   ensures [visitOrsPrimaryFlag C15] arg.IsPtr ==> (objects[arg.Value].inPrimary <==> (old(dom(objects, arg.Value) && objects[arg.Value].inPrimary) || primary))
+//@   ensures [visitLeavesOtherValues C15] forall v uint64 :: v != arg.Value ==> dom(objects, v) == old(dom(objects, v)) && objects[v].inPrimary == old(objects[v].inPrimary) && sameslice(objects[v].args, old(objects[v].args))
 
 //@ func (*Args).walk
 //@   option assumed
